@@ -203,6 +203,16 @@ impl FsCommand {
         })
     }
 
+    /// Checks the conditions that make `execute` refuse the command before it changes anything.
+    /// Such a command must not get into the script, so that a dry run does not announce
+    /// operations that the real run does not perform.
+    fn check_preconditions(&self) -> io::Result<()> {
+        match self {
+            FsCommand::Move { source, target, .. } => Self::check_can_rename(&source.path, target),
+            _ => Ok(()),
+        }
+    }
+
     fn check_can_rename(source: &Path, target: &Path) -> io::Result<()> {
         // symlink_metadata doesn't follow links, so a dangling symlink also counts as existing
         if target.to_path_buf().symlink_metadata().is_ok() {
@@ -1097,7 +1107,17 @@ where
                 };
                 for group in groups {
                     match partition(group, config, log) {
-                        Ok(group) => commands.extend(group.dedupe_script(&op, &devices)),
+                        Ok(group) => {
+                            commands.extend(group.dedupe_script(&op, &devices).into_iter().filter(
+                                |cmd| match cmd.check_preconditions() {
+                                    Ok(()) => true,
+                                    Err(e) => {
+                                        log.warn(e);
+                                        false
+                                    }
+                                },
+                            ))
+                        }
                         Err(e) => log.warn(e),
                     }
                 }
